@@ -179,12 +179,12 @@ func table() []mech {
 			return config.MechanismConfig{"endpoint": ep("/authz"), "payload": `{"s":"{{ .Subject.ID }}","v":"{{ .Values.a }}"}`, "values": m(`{"a":"proto-a","b":"proto-b"}`),
 				"expressions": []any{m(`{"expression":"Payload.level >= 1"}`)}, "forward_response_headers_to_upstream": []any{"X-Remote-Echo"}}
 		}, Overrides: []map[string]any{m(`{"payload":"other {{ .Values.b }}"}`), m(`{"values":{"a":"override-a"}}`), m(`{"values":{"c":"new"}}`),
-			m(`{"expressions":[{"expression":"Payload.level >= 5"}]}`), m(`{"forward_response_headers_to_upstream":["X-Other"]}`), m(`{"cache_ttl":"5s"}`),
+			m(`{"expressions":[{"expression":"Payload.level >= 5"}]}`), m(`{"forward_response_headers_to_upstream":["X-Other"]}`), m(`{"forward_response_headers_to_upstream":[]}`), m(`{"cache_ttl":"5s"}`),
 			m(`{"expressions":[{"expression":"Payload.level >= 5","message":"level too low"}]}`), m(`{"expressions":[{"expression":"Payload.level >= 1"},{"expression":"Payload.level >= 5"}]}`)}},
 		{Name: "generic_ctx", Category: "contextualizer", Type: "generic", Proto: func() config.MechanismConfig {
 			return config.MechanismConfig{"endpoint": ep("/ctx"), "payload": `{"s":"{{ .Subject.ID }}","v":"{{ .Values.a }}"}`, "values": m(`{"a":"proto-a"}`),
 				"forward_headers": []any{"X-Tenant"}, "cache_ttl": "0s"}
-		}, Overrides: []map[string]any{m(`{"payload":"other"}`), m(`{"values":{"a":"override-a"}}`), m(`{"values":{"z":"new"}}`), m(`{"forward_headers":["X-Other-Tenant"]}`),
+		}, Overrides: []map[string]any{m(`{"payload":"other"}`), m(`{"values":{"a":"override-a"}}`), m(`{"values":{"z":"new"}}`), m(`{"forward_headers":["X-Other-Tenant"]}`), m(`{"forward_headers":[]}`),
 			m(`{"continue_pipeline_on_error":true}`)}, Headers: []vkit.HeaderKV{{Name: "X-Tenant", Value: "t1"}, {Name: "X-Other-Tenant", Value: "t2"}}},
 		{Name: "header", Category: "finalizer", Type: "header", Proto: func() config.MechanismConfig { return m(`{"headers":{"X-One":"1-{{ .Subject.ID }}","X-Two":"2"}}`) },
 			Overrides: []map[string]any{m(`{"headers":{"X-One":"changed"}}`), m(`{"headers":{"X-Three":"3"}}`)}},
